@@ -100,10 +100,11 @@ Definition source_reads_ok (jr_tables : list (bytes * list rstmt)) (term : bytes
 Section Acc.
   Variable jw_tables : list (bytes * bool * list wstmt).
   (* a property statement that, when it runs, always writes its member (so that a plain assignment of its result
-     to notEmpty cannot reset the flag) *)
+     to notEmpty cannot reset the flag).  JSONWriteTimeProp is not among them: it leaves out an instant whose UTC
+     year is outside 0000-9999 and reports false *)
   Definition always_writes (writer : bytes) (path : list fid) (guards : list wguard) : bool :=
     existsb (fun g => match g with GValNonEmpty => true | _ => false end) guards
-    || existsb (bytes_eqb writer) [B "JSONWriteTimeProp"; B "JSONWriteDurationProp"; B "JSONWriteIntProp"; B "JSONWriteFloatProp";
+    || existsb (bytes_eqb writer) [B "JSONWriteDurationProp"; B "JSONWriteIntProp"; B "JSONWriteFloatProp";
                                    B "JSONWriteBoolProp"; B "JSONWriteStringProp"]
     || (bytes_eqb writer (B "JSONWriteItemCollectionProp")
         && existsb (fun g => match g, path with GLenGt0 f, [f'] => fid_beq f f' | _, _ => false end) guards).
